@@ -51,7 +51,7 @@ CARRIED = {
     # pressure resultants are stated against StubAreaChange
     # ... and the zero total moment of the internal forces is the proved first-moment identity plus Kirchhoff symmetry
     # P F^T = F P^T of the constitutive law: the C11 contracts of the Lagrange wrappers / AD wrappers
-    "C14": [("C03", "kinematics", None), ("C11", "lagrange", None), ("C11", "wrapper", None)],
+    "C14": [("C03", "kinematics", None), ("C11", "lagrange", None), ("C11", "wrapper", None), ("C11", "handcoded", lambda cfg: cfg.get("part") == "balance")],
     # hand-coded vs differentiated versions are compared on the plain call; the hand-coded models' out= buffer variants
     # (what a solid body actually calls) are the C03 `handcoded` contract
     "C12": [("C03", "handcoded", None)],
